@@ -428,6 +428,8 @@ def run(seed=0, rounds=400):
         check('sorted-key-reverse', [ts[n] for n in order] == sorted(ts, key=lambda t: (len(t), t[-1]), reverse=True), ts)
     from native import axioms_c06b  # numpy METADATA axioms of pyvc/npshape.py + nutils_poly plan shapes (contracts/C06b.py)
     axioms_c06b.run(rng, check, rounds=max(10, rounds // 8))
+    from native import axioms_c11b  # L-RADIX, ground L-DIVMOD, searchsorted on object arrays, Axis callee contract, A-NF-S / A-NF-P (C11 second round)
+    axioms_c11b.run(check, rng)
     print('AXIOMS ' + json.dumps(dict(rounds=rounds, failures=fails[:5])))
     ok_sets = run_sets(seed)
     ok_ev = evaluable_nodes(seed)
